@@ -144,7 +144,8 @@ def check_log(ctx, log, iname, fresh_solver=None, expect_restart=False):
         frm = its[k]["from"]
         dts = float(np.min(ev["dt"]))
         cflstep = float(np.min(its[k]["dt"])) if its[k]["dt"] is not None else np.inf
-        good = ev["t0"] == frm["time"] and dts >= 0.0 and dts <= cflstep * (1 + 1e-12)
+        # the side-step length is a difference of two times: allow the round-off of the accumulated time
+        good = ev["t0"] == frm["time"] and dts >= 0.0 and dts <= cflstep * (1 + 1e-12) + 8 * ulp(abs(ev["t0"]) + abs(dts))
         ctx.true("snapshot-origin", good, "solve/snapshot-side-step" + ("/backward" if dts < 0 else "/not-from-trajectory-state" if ev["t0"] != frm["time"] else "/longer-than-cfl-step"),
                  {"snapshot time": s["time"], "side step from": ev["t0"], "dt": dts, "cfl step": cflstep, "trajectory state time": frm["time"]}, cls="snapshot-origin")
         ctx.true("snapshot-it", s["it"] == log.itstart + k, "solve/snapshot-iteration-tag", {"it": s["it"], "expected": log.itstart + k, "time": s["time"]}, cls="snapshot-it")
